@@ -34,7 +34,7 @@ def main():
     patch = os.path.join(src, "patch.diff")
     demo = os.path.join(src, "demo.py")
     for f in ("patch.diff", "demo.py", "notes.md"):
-        if os.path.exists(os.path.join(src, f)):
+        if os.path.exists(os.path.join(src, f)) and os.path.realpath(src) != os.path.realpath(out):
             shutil.copy(os.path.join(src, f), os.path.join(out, f))
     env = dict(os.environ, PYTHONPATH=REPO)
     try:
@@ -85,7 +85,7 @@ def finish(out, meta):
                 hist.append({"time": old.get("time"), "checks": {p: {k: e.get(k) for k in ("rc", "kind", "what")}
                                                                   for p, e in old["checks"].items()}})
             meta["history"] = hist
-            for k in ("initial_verdict", "strengthening"):
+            for k in ("initial_verdict", "strengthening", "round", "change", "needs_to_manifest", "files", "suite", "rejected"):
                 if k in old:
                     meta[k] = old[k]
         except Exception:  # noqa: BLE001
